@@ -60,7 +60,7 @@ main (int argc, char **argv)
       printf ("dlvsym %s@%s: %s\n", sym, ver, dlvsym (h, sym, ver) ? "resolves" : "MISSING");
     }
   static struct crypt_data d;
-  static const char rb[64] = "0123456789abcdefghijklmnopqrstuvwxyzABCDEFGHIJKLMNOPQRSTUVWXYZ./";
+  static const char rb[80] = "0123456789abcdefghijklmnopqrstuvwxyzABCDEFGHIJKLMNOPQRSTUVWXYZ./+-=_,;<>()[]{}#";
   f2 x_crypt = (f2) dlvsym (h, "xcrypt", "XCRYPT_2.0"), f_crypt = (f2) dlvsym (h, "fcrypt", "GLIBC_2.2.5"), old_crypt = (f2) dlvsym (h, "crypt", "GLIBC_2.2.5");
   f3 x_crypt_r = (f3) dlvsym (h, "xcrypt_r", "XCRYPT_2.0"), old_crypt_r = (f3) dlvsym (h, "crypt_r", "GLIBC_2.2.5");
   fgs x_gensalt = (fgs) dlvsym (h, "xcrypt_gensalt", "XCRYPT_2.0"), ow_gensalt = (fgs) dlvsym (h, "crypt_gensalt", "OW_CRYPT_1.0");
@@ -134,6 +134,18 @@ main (int argc, char **argv)
               if (ow_gensalt_rn) { errno = 0; r = ow_gensalt_rn (prefixes[p], counts[c], rb, nrb, out, sizeof out); show ("crypt_gensalt_rn@OW_CRYPT_1.0", prefixes[p], lab, r, errno); }
             }
         }
+  /* every amount of caller-supplied randomness an old program may pass.  Left out: md5crypt/sha256crypt/sha512crypt with 3, 6,
+     9 or 12 bytes - there 4.4.33 dropped the last 3-byte group (a salt-less setting for 3 bytes), which is fixed defect F3 of
+     this tree, so the two libraries differ on purpose */
+  for (int p = 0; prefixes[p]; p++)
+    for (int nrb = 0; nrb <= 72; nrb++)
+      {
+        if (nrb % 3 == 0 && nrb >= 3 && nrb <= 12 && (!strncmp (prefixes[p], "$1$", 3) || !strncmp (prefixes[p], "$5$", 3) || !strncmp (prefixes[p], "$6$", 3)))
+          continue;
+        char out[CRYPT_GENSALT_OUTPUT_SIZE], lab[64], *r;
+        snprintf (lab, sizeof lab, "count=0,nrbytes=%d (sweep)", nrb);
+        errno = 0; r = crypt_gensalt_rn (prefixes[p], 0, rb, nrb, out, sizeof out); show ("crypt_gensalt_rn", prefixes[p], lab, r, errno);
+      }
   {
     char out[CRYPT_GENSALT_OUTPUT_SIZE], *r;
     errno = 0; r = crypt_gensalt_rn (0, 0, rb, 32, out, sizeof out); show ("crypt_gensalt_rn", "(NULL prefix)", "", r, errno);
